@@ -46,6 +46,28 @@ contract(
     props=["C05", "C04"],
 )
 
+# MovingWindow with a non-negative fitted threshold (a negative one is known finding KF1: the zero-padded border is then reported and the
+# converter's precondition 1 <= changepoint fails): the labelling clauses are those of the other change detectors, the range clause is its own
+contract(
+    target=f"{BD}::BaseDetector.transform", self_class="MovingWindow", variant="MovingWindow/threshold>=0",
+    params={"self": "obj:MovingWindow", "self._is_fitted": "bool=True", "self.bandwidth": "int", "self.threshold_": "real",
+            "self.min_detection_interval": "int", "self._change_score": "obj:~BaseChangeScore", "self._change_score.min_size": "int",
+            "self.scores": "any", "X": "real[n,p]"},
+    requires=["self.bandwidth >= 1", "self._change_score.min_size >= 1", "self._change_score.min_size <= self.bandwidth",
+              "self.min_detection_interval >= 1", "self.threshold_ >= 0"],
+    raises={"ValueError": "HASNAN(X) or n < 2 * self.bandwidth"},
+    returns="frame:real[n]",
+    ensures={
+        "length": _LABELS["length"],
+        "wellformed": f"forall(range(len({_Y})), lambda q: self.bandwidth <= {_Y}[q] and {_Y}[q] <= n - self.bandwidth) and "
+                      f"forall(range(len({_Y}) - 1), lambda q: {_Y}[q] < {_Y}[q + 1])",
+        "before_first": _LABELS["before_first"],
+        "segment_number": _LABELS["segment_number"],
+    },
+    ghost=_GHOST,
+    props=["C05", "C04"],
+)
+
 # ---- MVCAPA: cell (t, c) of transform(X) carries a+1 iff t lies in the a-th anomaly of THIS call's predict(X) and c is one of its columns, else 0
 from .detectors import _KIND       # noqa: E402
 
